@@ -48,6 +48,10 @@ class ModelOracle(Oracle):
             discr = {"field": _field(first), "kind": rec.get("kind"), "cls": mrec.get("cls") or rec.get("cls"), "view": label}
             if "but not in" in first:
                 discr["field"] = "missing_in_" + first.rsplit(" ", 1)[1]
+            if getattr(model, "removed_entry", {}).get(uid) == "parent" and uid in model.recs:
+                # the identifier of an entity removed through its parent has been given to a new entity (a cross-workspace
+                # copy keeps identifiers): the new entity meets the node that removal left in the file
+                discr["reuses_uid_removed_by"] = "parent"
             raise Violation(self.prop, "state_differs", f"{label}: {first} (+{len(diffs) - 1} more)", discr)
 
     def _snap(self, world, h, label):
